@@ -924,13 +924,15 @@ fn make_var_heavy(r: &mut Rng, p: &mut Prog, d: &J) {
     // refers to a variable / calls a parameterised rule, `<name>_b` has the definition written
     // in place. The statement excepts only the emptiness test on a bare variable, which is
     // not used here; the two rules of a pair must get the same status in every run.
-    if r.chance(2, 3) {
-        let mut k = key(r);
+    // (only keys that print as bare identifiers: `let v = "quoted-key"` would bind a string)
+    let ident_keys: Vec<String> = top_keys.iter().filter(|k| rules::is_ident_pub(k)).cloned().collect();
+    if r.chance(2, 3) && !ident_keys.is_empty() {
+        let mut k = ident_keys[r.usize(ident_keys.len())].clone();
         let shape = r.below(8);
         if shape == 4 || shape == 5 {
             // the filter shape below wants a list with numbers in it, if the document has one
             if let J::Map(kv) = d {
-                if let Some((lk, _)) = kv.iter().find(|(_, v)| matches!(v, J::List(xs) if xs.iter().any(|x| matches!(x, J::Int(_) | J::Float(_) | J::Bool(_))))) {
+                if let Some((lk, _)) = kv.iter().find(|(kk, v)| rules::is_ident_pub(kk) && matches!(v, J::List(xs) if xs.iter().any(|x| matches!(x, J::Int(_) | J::Float(_) | J::Bool(_))))) {
                     k = lk.clone();
                 }
             }
